@@ -112,12 +112,24 @@ Fixpoint rescale_masks (l : list qarr) (s : Qc) : result (list oarr) :=
               rbind (rescale_masks t s) (fun rt => Ok (r :: rt)))
   end.
 
-Definition rescale_msk (m : msk) (s : Qc) : result omsk :=
+Definition rescale_msk0 (m : msk) (s : Qc) : result omsk :=
   match m with
   | MScalar _ => Err TypeError                        (* iteration over a 0-d array *)
   | MMono a => rbind (util_rescale Nearest0 a s) (fun r => Ok (OMono (omap binarise r)))
   | MCube l => rbind (rescale_masks l s) (fun r => Ok (OCube (map (omap binarise) r)))
   end.
+
+(* plane._slice = _plane_slice(plane._mask): helper.boundary_slice raises IndexError on a mask (or a
+   segment) without a single non-zero sample *)
+Definition zrange (n : Z) : list Z := map Z.of_nat (seq 0 (Z.to_nat n)).
+Definition is_one (x : samp) : bool := match x with Known v => nz v | NonZero => true | Unknown => false end.
+Definition has_one (a : oarr) : bool :=
+  existsb (fun i => existsb (fun j => is_one (oget a i j)) (zrange (onc a))) (zrange (onr a)).
+Definition nonempty_msk (m : omsk) : bool :=
+  match m with OMono a => has_one a | OCube l => forallb has_one l end.
+
+Definition rescale_msk (m : msk) (s : Qc) : result omsk :=
+  rbind (rescale_msk0 m s) (fun m' => if nonempty_msk m' then Ok m' else Err IndexError).
 
 Definition rescale_ps (ps : option (Qc * Qc)) (s : Qc) : option (Qc * Qc) :=
   match ps with None => None | Some (px, py) => Some (px / s, py / s)%Qc end.
